@@ -244,9 +244,9 @@ def run_case(case):
         bdur = 0.3
         ns = int(3.6 * fs)
         d = scratch()
-        ci = case.get("_orig_i", case["_i"])
-        fkind = ["3B2", "NP2.1", "3B2", "NP2.4"][ci % 4]                  # every generation (its own volts-per-bit path) ...
-        fnsync = [1, 0, 1, 1][(ci // 2) % 4]                                # ... and recordings saved without the sync channel
+        ci = case["seed"] % 1000                                            # ordinal of the file-mode case within the run
+        fkind = ["NP2.1", "3B2", "NP2.4", "3B2"][ci % 4]                  # every generation (its own volts-per-bit path) ...
+        fnsync = [0, 1, 1, 0][ci % 4]                                       # ... and recordings saved without the sync channel
         rec = G.make(rng, kind=fkind, sites=G.draw_sites(rng, fkind, n, "dense"), ns=ns, raw=np.zeros((1, 1), np.int16), nsync=fnsync)
         s2v = rec.s2v[:n]
         raw = np.zeros((ns, n + fnsync), np.int16)
@@ -281,7 +281,7 @@ def run_case(case):
             raw[s0:s1, order] = np.clip(np.round(seg.T / s2v[order][None, :]), -32768, 32767).astype(np.int16)
         rec.raw = raw
         b = G.write(rec, d)
-        use_c = bool(case.get("_orig_i", case["_i"]) % 2)          # compressed and flat recordings alternate (both in every run)
+        use_c = bool((ci // 2) % 2)                                # compressed and flat recordings alternate (both in every run)
         label = f"file mode ({fkind}, {fnsync} sync channel): ch {often} {kind_often} in 7/10 batches, ch {seldom} {kind_seldom} in 3/10 batches, {'cbin' if use_c else 'bin'}"
         import spikeglx
         try:
